@@ -15,6 +15,9 @@ use std::str::FromStr;
 // ---------------------------------------------------------------------------------------------------------
 // deterministic PRNG (xorshift), no dependency
 struct Rng(u64);
+/// VWIT_SEED (default 0) varies every enumeration; VWIT_SCALE (default 1) multiplies the number of random inputs
+fn seed_mix(c: u64) -> u64 { let k: u64 = std::env::var("VWIT_SEED").ok().and_then(|v| v.parse().ok()).unwrap_or(0); let x = c ^ k.wrapping_mul(0x9E3779B97F4A7C15); if x == 0 { c } else { x } }
+fn scale() -> usize { std::env::var("VWIT_SCALE").ok().and_then(|v| v.parse().ok()).unwrap_or(1) }
 impl Rng {
     fn next(&mut self) -> u64 { let mut x = self.0; x ^= x << 13; x ^= x >> 7; x ^= x << 17; self.0 = x; x }
     fn below(&mut self, n: usize) -> usize { (self.next() % (n as u64)) as usize }
@@ -210,6 +213,76 @@ fn check_c04(d: &Doc) -> Result<(), Fail> {
     Ok(())
 }
 
+
+// ---------------------------------------------------------------------------------------------------------
+// C05: add / insert / remove paragraph against Vec push / insert(i) / remove(i) (histories of up to 3 operations,
+// each followed by the checks; new paragraphs get one field so that the text can be read back)
+#[derive(Clone, Debug, PartialEq)]
+enum POp { Add, Insert(usize), Remove(usize) }
+fn comment_lines(text: &str) -> Vec<String> { text.lines().filter(|l| l.starts_with('#')).map(|l| l.to_string()).collect() }
+fn run_c05(text: &str, ops: &[POp], wrapped: bool) -> Result<(), Fail> {
+    let mut doc = match deb822_lossless::Deb822::from_str(text) { Ok(x) => x, Err(_) => return Ok(()) };
+    // the same document as rebuilt by wrap_and_sort (comments become children of the root)
+    if wrapped { doc = doc.wrap_and_sort(None, None); }
+    let mut model: Vec<Vec<(String, String)>> = doc.paragraphs().map(|p| p.items().collect()).collect();
+    let mut texts: Vec<String> = doc.paragraphs().map(|p| p.to_string()).collect();
+    let mut fresh = 0;
+    for (k, op) in ops.iter().enumerate() {
+        let shown = format!("{:?}{} then {:?}", text, if wrapped { " rebuilt by wrap_and_sort(None, None)" } else { "" }, &ops[..=k]);
+        let mut comments = comment_lines(&doc.to_string());
+        let res = std::panic::catch_unwind(std::panic::AssertUnwindSafe(|| {
+            match op {
+                POp::Add => { let mut p = doc.add_paragraph(); p.set(&format!("New{}", fresh), "v"); }
+                POp::Insert(i) => { let mut p = doc.insert_paragraph(*i); p.set(&format!("New{}", fresh), "v"); }
+                POp::Remove(i) => { doc.remove_paragraph(*i); }
+            }
+        }));
+        if res.is_err() { report!("C05", shown, "the operation panics", "no panic".to_string(), "panic".to_string()); }
+        let newp = vec![(format!("New{}", fresh), "v".to_string())];
+        let newt = format!("New{}: v\n", fresh);
+        match op {
+            POp::Add => { model.push(newp); texts.push(newt); fresh += 1; }
+            POp::Insert(i) => { let j = (*i).min(model.len()); model.insert(j, newp); texts.insert(j, newt); fresh += 1; }
+            POp::Remove(i) => { if *i < model.len() { model.remove(*i); let t = texts.remove(*i); for c in comment_lines(&t) { if let Some(q) = comments.iter().position(|x| *x == c) { comments.remove(q); } } } }
+        }
+        let got: Vec<Vec<(String, String)>> = doc.paragraphs().map(|p| p.items().collect()).collect();
+        if got != model { report!("C05", shown, "the paragraph list is not what push / insert(i) / remove(i) give", format!("{:?}", model), format!("{:?}", got)); }
+        let gt: Vec<String> = doc.paragraphs().map(|p| p.to_string()).collect();
+        if gt != texts { report!("C05", shown, "the text of another paragraph changed", format!("{:?}", texts), format!("{:?}", gt)); }
+        let out = doc.to_string();
+        let mut c2 = comment_lines(&out); let mut c1 = comments.clone(); c1.sort(); c2.sort();
+        if c1 != c2 { report!("C05", shown, "a comment was lost or changed", format!("{:?}", c1), format!("{:?}", c2)); }
+        match deb822_lossless::Deb822::from_str(&out) {
+            Err(e) => report!("C05", shown, "the printed document does not parse", "Ok".to_string(), format!("{:?} for {:?}", e, out)),
+            Ok(d2) => {
+                let again: Vec<Vec<(String, String)>> = d2.paragraphs().map(|p| p.items().collect()).collect();
+                if again != model { report!("C05", shown, "printing and reading again gives different paragraphs", format!("{:?}", model), format!("{:?} from {:?}", again, out)); }
+            }
+        }
+    }
+    Ok(())
+}
+fn c05_ops(np: usize) -> Vec<POp> {
+    let mut v = vec![POp::Add];
+    for i in 0..=np + 1 { v.push(POp::Insert(i)); v.push(POp::Remove(i)); }
+    v
+}
+fn check_c05(d: &Doc) -> Result<(), Fail> {
+    let full = doc_text(d);
+    let mut variants = vec![full.clone()];
+    if std::env::var("VWIT_NOEOF").is_err() && full.ends_with('\n') && !full.ends_with("\n\n") && !d.paras.is_empty() && d.paras.last().unwrap().gap.is_empty() && d.paras.last().unwrap().trailing.is_empty() { variants.push(full[..full.len() - 1].to_string()); }
+    for text in &variants {
+        let np = d.paras.len();
+        for a in c05_ops(np) {
+            for wrapped in [false, true] {
+                run_c05(text, &[a.clone()], wrapped)?;
+                for b in c05_ops(np + 1) { run_c05(text, &[a.clone(), b.clone()], wrapped)?; }
+            }
+        }
+    }
+    Ok(())
+}
+
 /// smaller well-formed documents obtained by deleting one element
 fn shrinks(d: &Doc) -> Vec<Doc> {
     let mut out = Vec::new();
@@ -263,7 +336,7 @@ mod rel {
     /// C10 / C14 (second clause): the strict lossless reader accepts the printed field and shows the same structure
     pub fn run_lossless() -> Result<usize, Fail> {
         use debian_control::lossless::relations::Relations as LRelations;
-        let mut r = Rng(0xA0761D6478BD642F);
+        let mut r = Rng(crate::seed_mix(0xA0761D6478BD642F));
         let mut n = 0;
         for _ in 0..4000 {
             let ne = 1 + r.below(3);
@@ -282,9 +355,9 @@ mod rel {
         Ok(n)
     }
     pub fn run() -> Result<usize, Fail> {
-        let mut r = Rng(0xD1B54A32D192ED03);
+        let mut r = Rng(crate::seed_mix(0xD1B54A32D192ED03));
         let mut n = 0;
-        for _ in 0..6000 {
+        for _ in 0..6000 * crate::scale() {
             let rel = gen(&mut r);
             let t = rel.to_string();
             n += 1;
@@ -327,10 +400,10 @@ mod sat {
         }
     }
     pub fn run() -> Result<usize, Fail> {
-        let mut r = Rng(0x2545F4914F6CDD1D);
+        let mut r = Rng(crate::seed_mix(0x2545F4914F6CDD1D));
         let cons = [VersionConstraint::GreaterThanEqual, VersionConstraint::LessThanEqual, VersionConstraint::Equal, VersionConstraint::GreaterThan, VersionConstraint::LessThan];
         let mut n = 0;
-        for _ in 0..6000 {
+        for _ in 0..6000 * crate::scale() {
             // a field of 1..3 entries of 1..3 alternatives
             let ne = 1 + r.below(3);
             let field: Vec<Vec<lossy::Relation>> = (0..ne).map(|_| { let na = 1 + r.below(3); (0..na).map(|_| lossy::Relation {
@@ -385,9 +458,9 @@ mod cpr {
     const PATHS: &[&str] = &["src/a.c", "src/", "src/ab", "doc/a.txt", "doc/abc.txt", "x.h", "abc", "ac", "win\\foo.c", "glob/star*", "glob/starx", "debian/rules", "a", "README", "a/b"];
     const LICS: &[&str] = &["MIT", "GPL-2+", "BSD-3-clause", "Apache-2.0"];
     pub fn run() -> Result<usize, Fail> {
-        let mut r = Rng(0x94D049BB133111EB);
+        let mut r = Rng(crate::seed_mix(0x94D049BB133111EB));
         let mut n = 0;
-        for _ in 0..3000 {
+        for _ in 0..3000 * crate::scale() {
             let np = 1 + r.below(4);
             let paras: Vec<(Vec<&str>, &str)> = (0..np).map(|_| { let k = 1 + r.below(2); ((0..k).map(|_| *r.pick(PATS)).collect(), *r.pick(LICS)) }).collect();
             let mut text = String::from("Format: https://www.debian.org/doc/packaging-manuals/copyright-format/1.0/\n");
@@ -422,9 +495,9 @@ mod acc {
     const WORDS: &[&str] = &["a", "foo", "lib-x", "1.0", "x=y", "DEB_BUILD_OPTIONS", "parallel=4", "\"quoted=1\"", "LANG", "C.UTF-8"];
     pub fn run() -> Result<usize, Fail> {
         use debian_control::lossless::buildinfo::Buildinfo;
-        let mut r = Rng(0xC2B2AE3D27D4EB4F);
+        let mut r = Rng(crate::seed_mix(0xC2B2AE3D27D4EB4F));
         let mut n = 0;
-        for _ in 0..2000 {
+        for _ in 0..2000 * crate::scale() {
             n += 1;
             let mut b = Buildinfo::new();
             // Environment: KEY=value lines; values may contain '='
@@ -491,23 +564,48 @@ fn main() {
             Err(f) => f.print_and_exit(),
         }
     }
-    let mut r = Rng(0x9E3779B97F4A7C15);
+    let mut r = Rng(crate::seed_mix(0x9E3779B97F4A7C15));
     // all single-field documents over the pools
     let mut docs: Vec<Doc> = Vec::new();
     for n in NAMES { for w in WS { for f in FIRST { for c in [None, Some(CONT[0]), Some(CONT[1]), Some(CONT[2])] {
         let conts = match c { None => vec![], Some(t) => vec![Cont { indent: " ".into(), text: t.to_string() }] };
         docs.push(Doc { lead: vec![], paras: vec![Para { fields: vec![Field { comments: vec![], name: n.to_string(), ws: w.to_string(), first: f.to_string(), conts }], trailing: vec![], gap: vec![] }] });
     } } } }
-    for _ in 0..N_DOCS { docs.push(gen_doc(&mut r)); }
+    for _ in 0..N_DOCS * scale() { docs.push(gen_doc(&mut r)); }
     let check: fn(&Doc) -> Result<(), Fail> = match prop {
         "C03" | "C01" => check_c03,
         "C06" => check_c06,
         "C08" => check_c08,
         "C04" => check_c04,
+        "C05" => check_c05,
         _ => { eprintln!("no falsifier for {}", prop); std::process::exit(3); }
     };
     let progress = std::env::var("VWIT_PROGRESS").ok();
-    for d in &docs {
+    // the documents are checked by 8 threads; the reported failure is the one with the smallest index, so the
+    // result does not depend on scheduling. Each thread notes the document under test in <progress>.<k>
+    // (removed when the thread is done) for the caller's watchdog.
+    let nthreads = 8usize;
+    let first_fail: Option<usize> = std::thread::scope(|sc| {
+        let mut hs = Vec::new();
+        for k in 0..nthreads {
+            let docs = &docs; let progress = &progress;
+            hs.push(sc.spawn(move || {
+                let pf = progress.as_ref().map(|p| format!("{}.{}", p, k));
+                let mut found = None;
+                let mut i = k;
+                while i < docs.len() {
+                    if let Some(p) = &pf { let _ = std::fs::write(p, doc_text(&docs[i])); }
+                    if check(&docs[i]).is_err() { found = Some(i); break; }
+                    i += nthreads;
+                }
+                if let Some(p) = &pf { let _ = std::fs::remove_file(p); }
+                found
+            }));
+        }
+        hs.into_iter().filter_map(|h| h.join().ok().flatten()).min()
+    });
+    if let Some(i) = first_fail {
+        let d = &docs[i];
         if let Some(p) = &progress { let _ = std::fs::write(p, doc_text(d)); }
         if let Err(f0) = check(d) {
             // greedy shrinking: keep deleting single elements while some failure remains
